@@ -111,6 +111,7 @@ type world struct {
 }
 
 var errValidator = errors.New("scripted validator rejection")
+var errCause = errors.New("the application is shutting down (cancellation cause)")
 
 type tempErr struct{}
 
@@ -199,7 +200,8 @@ func body(p Params) func() {
 		})
 		var canc vrt.Handle
 		if p.Canceller {
-			canc = vrt.GoNamed("canceller", func() { ctx.Cancel() })
+			// cancelled WITH a cause: Connect must still return the context's error, not the cause
+			canc = vrt.GoNamed("canceller", func() { ctx.CancelCause(errCause) })
 		}
 		w.Err = conn.Connect()
 		w.CtxErrAtReturn = ctx.PeekErr()
@@ -270,7 +272,7 @@ func check(p Params) func(r *vrt.Result) string {
 			return ""
 		}
 		if w.T.Ctx.Cancelled() && (p.Deadline == 0 || w.CtxErrAtReturn != nil) {
-			if !errors.Is(w.Err, context.Canceled) {
+			if !errors.Is(w.Err, context.Canceled) || errors.Is(w.Err, errCause) {
 				what := "was cancelled"
 				if midLine(w.Body) {
 					what = "was cancelled while a line was only partially received"
